@@ -291,7 +291,7 @@ def enum_pairs(tier):
     t = 0
     for i, a in enumerate(firsts):
         for j, b in enumerate(seconds):
-            if full or (i < small and j < small) or (t + seed) % 24 == 0:
+            if full or (i < small and j < small) or (t + seed) % 16 == 0:
                 yield {"a": a, "b": b}
             t += 1
     # slice 2: <= 3 nodes, element x hcount x order
@@ -576,7 +576,7 @@ SUBS = [
         "random_pairs",
         body_pair_random,
         strategy=strat_pairs,
-        examples={"quick": 8000, "thorough": 100000},
+        examples={"quick": 14000, "thorough": 100000},
         shards={"quick": 16, "thorough": 16},
         doc="(i)-(iv) on copies / one-edit neighbours / hcount shifts / sub-patterns / independent graphs <= 8 nodes",
     ),
@@ -584,7 +584,7 @@ SUBS = [
         "relabelling",
         body_relabel,
         strategy=strat_relabel,
-        examples={"quick": 3000, "thorough": 30000},
+        examples={"quick": 5000, "thorough": 30000},
         shards={"quick": 16, "thorough": 16},
         doc="verdicts of every API (filters on and off) are unchanged when either argument gets new ids / orders",
     ),
@@ -600,7 +600,7 @@ SUBS = [
         "random_histories",
         run_history,
         strategy=strat_histories,
-        examples={"quick": 4000, "thorough": 40000},
+        examples={"quick": 7000, "thorough": 40000},
         shards={"quick": 16, "thorough": 16},
         doc="(v) Hypothesis pools of related graphs, 2-4 engines, up to 30 queries",
     ),
